@@ -134,12 +134,9 @@ def r2_contravariant(repo):
         elif f.qualname == GEN + ".gen_type_params" and isinstance(p, ast.List):
             kind = "declaration-site variance pool of gen_type_params (C17-R5)"
         elif f.qualname == "src.ir.type_utils._get_type_arg_variance":
-            gs = []
-            for a in ancestors(n):
-                if isinstance(a, ast.IfExp) and is_within(n, a.body):
-                    gs.append(src(a.test))
-            ok = any("not cfg.dis.use_site_contravariance" in " ".join(g.split()) for g in gs)
-            kind = "use-site, under `not cfg.dis.use_site_contravariance`" if ok else None
+            # how the constant can leave this function is decided on all abstract inputs by the decision table below
+            # (obligation `_get_type_arg_variance:no-contravariance-under-the-switch`), not by the shape of a guard
+            kind = "use-site variance pool of the decision function (decided by the decision table)"
         n_cls += 1
         obs.append(Ob("C17-R2", "Contravariant@%s:%s" % (f.qualname, " ".join(src(p).split())[:50]), _w(f, n),
                       kind is not None,
@@ -225,7 +222,7 @@ def r4_parameterized_functions(repo):
             if call_name(c) == "FunctionDeclaration":
                 sites.append((f, c))
     for f, c in sites:
-        tpk = kwarg(c, "type_parameters")
+        tpk = kwarg(c, "type_parameters", 8)
         if tpk is None:
             obs.append(Ob("C17-R4", "FunctionDeclaration@%s:no-type-parameters" % f.qualname, _w(f, c), True,
                           "constructed without type parameters"))
@@ -238,10 +235,14 @@ def r4_parameterized_functions(repo):
                 continue   # callers are checked below
             if isinstance(v, ast.List) and not v.elts:
                 continue
+            switch = ("ut.random.bool(prob=cfg.prob.parameterized_functions)", "ut.random.bool(cfg.prob.parameterized_functions)")
             if isinstance(v, ast.IfExp) and isinstance(v.body, ast.Call) and call_name(v.body) == "gen_type_params" and \
-                    " ".join(src(v.test).split()) == "ut.random.bool(prob=cfg.prob.parameterized_functions)" and \
+                    " ".join(src(v.test).split()) in switch and \
                     isinstance(v.orelse, ast.List) and not v.orelse.elts:
                 continue
+            if isinstance(v, ast.Call) and call_name(v) == "gen_type_params" and any(
+                    pol and " ".join(src(t).split()) in switch for t, pol in flat_guards(g.stmt(d))):
+                continue      # statement form of the same decision
             bad.append(src(v) if isinstance(v, ast.AST) else str(v))
         obs.append(Ob("C17-R4", "FunctionDeclaration@%s:type_parameters-origin" % f.qualname, _w(f, c), not bad and bool(defs),
                       "fresh function type parameters only under ut.random.bool(prob=cfg.prob.parameterized_functions), "
@@ -251,8 +252,8 @@ def r4_parameterized_functions(repo):
         if f.module is not m:
             continue
         for c in calls_in(f.node):
-            if call_name(c) == "gen_func_decl" and kwarg(c, "type_params") is not None:
-                v = kwarg(c, "type_params")
+            if call_name(c) == "gen_func_decl" and kwarg(c, "type_params", 7) is not None:
+                v = kwarg(c, "type_params", 7)
                 prov = Prov(f.node)
                 srcs = [s for s in prov.sources(v, at=c) if isinstance(s, ast.Call)]
                 ok = any(call_name(s) == "_gen_type_params_from_existing" for s in srcs) and \
